@@ -285,6 +285,8 @@ package imperatives
 //@   ensures[one_route_added; C20] err == nil ==> (exists e elem :: calls(table.AddRoute) == old(calls(table.AddRoute)) ++ e)
 //@
 //@ func readAddRouteConsistentHashing(s *toki.Scanner, table table.Interface) (err error)
+//@   // NewConsistentHashing never fails (its contract says so): the error branch behind it is dead code
+//@   unreachable_return "return err #4"
 //@   property C20,C14
 //@   requires s != nil && table != nil && table.ref != 0
 //@   modifies *
